@@ -27,6 +27,12 @@ CHECKS = {
  "C10": ("exploration", "runtime monitoring: differential execution of a crash catalogue (regular vs -tiny) over GOTRACEBACK settings and goroutine contexts",
   "A crash-catalogue program (31 crash kinds x main/goroutine/deferred/init contexts x GOTRACEBACK settings, recover paths, position queries) is run as a regular and as a -tiny build: tiny stderr must equal the program's own OWN:-prefixed lines, stdout and exit status must be equal, recovered values unchanged, own-frame positions blank with line 1.",
   "GOTRACEBACK=crash excluded; runtime-internal frames keep their positions because the runtime is never obfuscated."),
+ "C14": ("exploration", "runtime monitoring: differential execution + byte-level binary scan per GOGARBLE pattern list; exit-status/stderr observation for rejected lists",
+  "A 5-package module whose packages use each other's structs and functions in both directions is built under exact, glob, prefix, std-mixed, all and nothing-matching GOGARBLE lists (quick 10, thorough all 31 subsets + extras): output must equal the regular build, markers and planted literals of matched packages must be absent, those of unmatched packages present, runtime names present, and a list matching nothing must be rejected without output.",
+  "Presence is only required for markers the regular stripped binary contains; cross-partition struct identity is a listed known finding with a dedicated witness."),
+ "C15": ("exploration", "runtime monitoring: differential build+execution of generated struct-type pairs across packages",
+  "Generated pairs of identical struct types (1-6 fields over 11 field-type kinds, embedded fields, generic instantiation, alias of anonymous struct, differing tags) declared in two or three packages are converted, assigned, built as composite values and selected in a third package; garble must build them and the program must print what the regular build prints.",
+  "All packages inside GOGARBLE; field-name equality is observed through compilability/behaviour, not by reading garble's bookkeeping."),
  "C16": ("exploration", "runtime monitoring: in-process oracle over generated inputs + hook event stream of real builds",
   "The tree's own naming function is executed in-process on 10^5 (quick) to 4*10^6 (thorough) generated (salt, seed, name) triples and every name garble produces during real garble-cold builds (std + program, ~9*10^4 applications per build) is taken from a hook stream; each output is checked for well-formedness, export preservation, purity and per-salt distinctness.",
   "Inputs are PRNG-generated, not exhaustive; clash classification trusts an independent sha256 recomputation."),
